@@ -7,6 +7,7 @@
 (*                  notices are exactly Dropped(val, N)               (C10)   *)
 (*   mode "same"  : obs = val as SYNTAX terms (two outputs parse alike)       *)
 (*                                                               (C03, C09)   *)
+(*   mode "cut"   : obs = CutSyn(val, N, re, rk) for which (re, rk)   (C11)   *)
 (***************************************************************************)
 EXTENDS PyTerm, TLC, Json, IOUtils
 
@@ -24,5 +25,11 @@ Verdict(c) ==
                            /\ SameBag(c.notices, Dropped(c.val, c.N))
     [] c.mode = "same" -> c.obs = c.val
 
-Report == Verdict(Cases[cs]) => PrintT(<<"ACCEPT", Cases[cs].id>>)
+\* C11: which of the four (empty-at-cut, str-key-at-cut) variants the output equals
+CutVariants(c) == {<<re, rk>> \in BOOLEAN \X BOOLEAN : c.obs = CutSyn(c.val, c.N, re, rk)}
+
+Report ==
+  IF Cases[cs].mode = "cut"
+  THEN PrintT(<<"CUT", Cases[cs].id, CutVariants(Cases[cs])>>)
+  ELSE Verdict(Cases[cs]) => PrintT(<<"ACCEPT", Cases[cs].id>>)
 =============================================================================
